@@ -175,13 +175,20 @@ Definition worker_step (hint : option name) (s : state) : state :=
   end.
 
 (* ---------------------------------------------------------------------------------------------- *)
+(* what an armed consumer callback raises: an Exception subclass, or gevent.Timeout (a BaseException
+   that is not an Exception; since 5b718d8 the handlers around on_leave / on_join in the worker read
+   `except (Exception, gevent.Timeout)`, so both are logged and the batch goes on).  Other BaseExceptions
+   (GreenletExit, KeyboardInterrupt, SystemExit) are requests to terminate the greenlet / process and are
+   deliberately not caught by the code: they are outside the model and the generators. *)
+Inductive raise_class := RException | RTimeout.
+
 Inductive label :=
 | Start                      (* ServerSet(zk, path, on_join, on_leave, member_filter) *)
 | CreateParent | DeleteParent | TouchParent
 | Create (n : name) | Delete (n : name)
 | Deliver                    (* the oldest pending watch callback runs (DeliverData / DeliverChildren) *)
 | WorkerStep (hint : option name)   (* the worker's in-flight read is answered / the worker runs until it blocks *)
-| CallbackRaises.            (* the next consumer callback invocation raises *)
+| CallbackRaises (c : raise_class).   (* the next consumer callback invocation raises an error of class c *)
 
 Definition step (s : state) (l : label) : state :=
   match l with
@@ -207,7 +214,7 @@ Definition step (s : state) (l : label) : state :=
       | PChild :: r => children_body (set_pending r s)
       end
   | WorkerStep h => if started s then worker_step h s else s
-  | CallbackRaises => set_armed (S (armed s)) s
+  | CallbackRaises _ => set_armed (S (armed s)) s    (* both classes reach the same handler *)
   end.
 
 Definition run (s : state) (ls : list label) : state := fold_left step ls s.
@@ -285,7 +292,7 @@ Fixpoint guarded (g : state -> label -> bool) (s : state) (ls : list label) : bo
 (* erasing which callbacks raised (used to state callback isolation) *)
 Definition erase_ev (e : event) : event := Ev (ev_kind e) (ev_name e) false.
 Definition erase (s : state) : state := set_log (map erase_ev (log s)) (set_armed 0%nat s).
-Definition is_raise (l : label) : bool := match l with CallbackRaises => true | _ => false end.
+Definition is_raise (l : label) : bool := match l with CallbackRaises _ => true | _ => false end.
 
 (* ---------------------------------------------------------------------------------------------- *)
 (* correspondence: one observation of the implementation per label                                 *)
@@ -298,7 +305,10 @@ Record obs := Obs {
   o_tree : option (list name);       (* the directory after the step *)
   o_exc : bool }.                    (* an exception escaped the constructor / a watch callback *)
 
-Definition case := (list name * list (label * obs))%type.
+(* a step carries an observation, or None: an intermediate worker step of an implementation run in which
+   member reads are answered at once (synchronously completing zk.get): the implementation does not stop
+   there, so nothing is compared until the next observed step, which sees the accumulated events and reads *)
+Definition case := (list name * list (label * option obs))%type.
 
 Definition event_eqb (a b : event) : bool :=
   kind_eqb (ev_kind a) (ev_kind b) && Z.eqb (ev_name a) (ev_name b) && Bool.eqb (ev_raised a) (ev_raised b).
@@ -323,28 +333,33 @@ Definition model_reads (s : state) (l : label) : list (name * bool) :=
   | _ => []
   end.
 
-Definition obs_ok (s : state) (l : label) (s' : state) (o : obs) : bool :=
+Definition obs_ok (reads : list (name * bool)) (s' : state) (o : obs) : bool :=
   events_equiv (rev (log s')) (o_events o)
-  && list_eqb (pair_eqb Z.eqb Bool.eqb) (model_reads s l) (o_reads o)
+  && list_eqb (pair_eqb Z.eqb Bool.eqb) reads (o_reads o)
   && option_eqb Z.eqb (option_map w_cur (wk s')) (o_parked o)
   && list_eqb pend_eqb (pending s') (o_pending o)
   && Nat.eqb (if dw s' then 1 else 0)%nat (o_dw o) && Nat.eqb (cw s') (o_cw o)
   && option_eqb set_eqb (if parent s' then Some (kids s') else None) (o_tree o)
   && negb (o_exc o).
 
-Fixpoint check_steps (s : state) (tr : list (label * obs)) : bool :=
+(* s carries the log and acc the reads accumulated since the last observed step *)
+Fixpoint check_steps (acc : list (name * bool)) (s : state) (tr : list (label * option obs)) : bool :=
   match tr with
   | [] => true
-  | (l, o) :: r => let s' := step (set_log [] s) l in obs_ok s l s' o && check_steps s' r
+  | (l, None) :: r => check_steps (acc ++ model_reads s l) (step s l) r
+  | (l, Some o) :: r => let s' := step s l in
+      obs_ok (acc ++ model_reads s l) s' o && check_steps [] (set_log [] s') r
   end.
-Definition check_case (c : case) : bool := check_steps (init (fst c)) (snd c).
+Definition check_case (c : case) : bool := check_steps [] (init (fst c)) (snd c).
 
 (* index of the first step on which model and implementation differ, with the model's view of it *)
-Fixpoint explain_steps (i : nat) (s : state) (tr : list (label * obs)) : option (nat * list event * option name * list pend * nat) :=
+Fixpoint explain_steps (i : nat) (acc : list (name * bool)) (s : state) (tr : list (label * option obs))
+  : option (nat * list event * option name * list pend * nat) :=
   match tr with
   | [] => None
-  | (l, o) :: r => let s' := step (set_log [] s) l in
-      if obs_ok s l s' o then explain_steps (S i) s' r
+  | (l, None) :: r => explain_steps (S i) (acc ++ model_reads s l) (step s l) r
+  | (l, Some o) :: r => let s' := step s l in
+      if obs_ok (acc ++ model_reads s l) s' o then explain_steps (S i) [] (set_log [] s') r
       else Some (i, rev (log s'), option_map w_cur (wk s'), pending s', cw s')
   end.
-Definition explain_case (c : case) := explain_steps 0%nat (init (fst c)) (snd c).
+Definition explain_case (c : case) := explain_steps 0%nat [] (init (fst c)) (snd c).
